@@ -53,23 +53,32 @@ theorem dlba_roundtrip (vs : List (List Nat)) (h : ∀ v ∈ vs, v.length < 2 ^ 
 
 example : ∀ v ∈ [[1, 2, 3], [], [255]], v.length < 2 ^ 31 := by decide
 
-/-- **Violation on the unchanged code** (finding `dlba-encode-ignores-offsets-window-*`): on the raw
-`(src, offsets)` input of the Go API, `LengthByteArrayEncoding.EncodeByteArray` appends the whole
-of `src` instead of the window the offsets describe. Witness: `src = aa 62 63`, offsets `[1,2,3]`
-(the values `62`, `63` seen through a window that starts at 1, as `Page.Slice` produces): the
-stream decodes to `aa`, `62`. When `offsets[0] = 0` and the last offset is `len(src)` the raw
-encoder is `mirrorEncodeDLBA` of the values (`dlba_raw_roundtrip_full_window`). -/
-theorem dlba_window_violation :
-    ∃ src offsets, specDecodeDLBA (mirrorEncodeDLBARaw src offsets) ≠ .ok (windowValues src offsets, []) :=
+/-- DELTA_LENGTH_BYTE_ARRAY through the raw `(src, offsets)` entry point of the Go API, for ANY
+offsets window: non-empty, non-decreasing offsets that end inside `src` (they may start after 0
+and stop before `len(src)`, as `Page.Slice` builds them). The stream decodes to exactly the
+values the offsets denote and nothing trails it. -/
+theorem dlba_raw_roundtrip (src : List Nat) (o : Nat) (rest : List Nat)
+    (hm : nondecreasing (o :: rest) = true) (hl : lastOff o rest ≤ src.length)
+    (h31 : ∀ v ∈ windowValues src (o :: rest), v.length < 2 ^ 31) :
+    specDecodeDLBA (mirrorEncodeDLBARaw src (o :: rest)) = .ok (windowValues src (o :: rest), []) := by
+  rw [mirrorEncodeDLBARaw_eq src o rest hm hl]; exact dlba_roundtrip _ h31
+
+example : nondecreasing (2 :: [5, 6]) = true ∧ lastOff 2 [5, 6] ≤ [0xaa, 0xaa, 1, 2, 3, 4, 0xbb].length ∧
+    ∀ v ∈ windowValues [0xaa, 0xaa, 1, 2, 3, 4, 0xbb] (2 :: [5, 6]), v.length < 2 ^ 31 := by decide
+
+/-- **Regression fact** (finding `dlba-encode-ignores-offsets-window-*`, repaired by
+`fix: DELTA_LENGTH_BYTE_ARRAY encodes the offsets window, not the whole buffer`): before the
+repair `EncodeByteArray` appended the whole of `src`. Witness: `src = aa 62 63`, offsets `[1,2,3]`
+(the values `62`, `63`): the stream decoded to `aa`, `62` with `63` trailing. -/
+theorem dlba_window_violation_before_fix :
+    ∃ src offsets, specDecodeDLBA (mirrorEncodeDLBARawBeforeFix src offsets) ≠ .ok (windowValues src offsets, []) :=
   ⟨[0xaa, 0x62, 0x63], [1, 2, 3], by decide +kernel⟩
 
-example : specDecodeDLBA (mirrorEncodeDLBARaw [0xaa, 0x62, 0x63] [1, 2, 3]) = .ok ([[0xaa], [0x62]], [0x63]) := by
+example : specDecodeDLBA (mirrorEncodeDLBARawBeforeFix [0xaa, 0x62, 0x63] [1, 2, 3]) = .ok ([[0xaa], [0x62]], [0x63]) := by
   decide +kernel
 
-/-- the raw `(src, offsets)` entry point is lossless when the offsets cover all of `src` from 0 -/
-theorem dlba_raw_roundtrip_full_window (vs : List (List Nat)) (h : ∀ v ∈ vs, v.length < 2 ^ 31) :
-    specDecodeDLBA (mirrorEncodeDLBARaw vs.flatten (offsetsFrom 0 vs)) = .ok (vs, []) := by
-  rw [mirrorEncodeDLBARaw_full]; exact dlba_roundtrip vs h
+example : specDecodeDLBA (mirrorEncodeDLBARaw [0xaa, 0x62, 0x63] [1, 2, 3]) = .ok ([[0x62], [0x63]], []) := by
+  decide +kernel
 
 /-- DELTA_BYTE_ARRAY: prefix lengths found by the Go word search + suffixes give back every value. -/
 theorem dba_roundtrip (vs : List (List Nat)) (h : ∀ v ∈ vs, v.length < 2 ^ 31) :
